@@ -89,6 +89,17 @@ func (w *World) eventSubscribed(name string) bool { return w.s.tr.isSubscribed("
 func (s *Sim) applySvc(op *SvcOp) bool {
 	w := s.W
 	switch op.Op {
+	case "qreaccess":
+		// a reaccess event for a query resource: it concerns every query variant
+		r := w.Res[op.Name]
+		if r == nil || !r.IsQuery {
+			return false
+		}
+		name := op.Name
+		s.stat("svc.reaccess_query", 1)
+		return s.tr.publishEvent("event."+name, "event."+name+".reaccess", nil, name, "", func() {
+			s.triggerDelivered(&Trigger{Kind: "reaccess", Name: name, CIdx: -1})
+		})
 	case "burst":
 		// Idx custom events in a row
 		ok := false
